@@ -354,8 +354,14 @@ func LoadProgram() (*Program, error) {
 				switch l := fi.Loops[h.N-1].(type) {
 				case *ast.ForStmt:
 					pos = l.Body.Lbrace + 1
+					if h.Where == "loopend" {
+						pos = l.Body.Rbrace
+					}
 				case *ast.RangeStmt:
 					pos = l.Body.Lbrace + 1
+					if h.Where == "loopend" {
+						pos = l.Body.Rbrace
+					}
 				}
 				emit(h.Stmts, localParams(pos), "", true)
 			case "call":
